@@ -34,6 +34,7 @@ ABS_TOL = 0.0     # raised temporarily by C19 when comparing objects that differ
 I3 = ((1, 0, 0), (0, 1, 0), (0, 0, 1))
 P3 = ((1, 2, 2), (2, 1, -2), (2, -2, 1))          # rows orthogonal, norm 3
 P7 = ((2, 3, 6), (3, -6, 2), (6, 2, -3))          # rows orthogonal, norm 7
+P5 = ((5, 0, 0), (0, 3, -4), (0, 4, 3))           # a 3-4-5 rotation about one axis: axis-aligned faces get normals with exactly one zero component
 
 
 def matmul(A, Bm):
@@ -98,7 +99,7 @@ def random_pose(rng, s=1, frames=True, limit=8, pts=()):
         M = rng.choice(SIGNED_PERMS)
         norm = 1
         if frames and rng.random() < 0.4:
-            F, norm = rng.choice(((P3, 3), (P3, 3), (P7, 7)))
+            F, norm = rng.choice(((P3, 3), (P3, 3), (P7, 7), (P5, 5), (P5, 5)))
             M = matmul(M, F)
         k = rng.choice((Fr(1, 2), Fr(1), Fr(1), Fr(2), Fr(3))) if norm == 1 else rng.choice((Fr(1, 2), Fr(1), Fr(1, 4)))
         den = rng.choice((1, 2, 4))
@@ -151,7 +152,7 @@ def build(o, pose=IDENT, num="float", rep=None):
     sc = rep.get("scale", 1)
     if "scale" not in rep and VARY is not None and k in ("Line", "Plane", "HalfLine"):
         # the same point set with a rescaled (for Line / Plane also negated) direction or normal vector
-        sc = VARY.choice((1, 1, 2, 3, -1, -2) if k != "HalfLine" else (1, 1, 2, 3))
+        sc = VARY.choice((1, 1, 2, 3, -1, -2, Fr(1, 4), Fr(-1, 2)) if k != "HalfLine" else (1, 1, 2, 3, Fr(1, 4), Fr(1, 2), Fr(1, 8)))
     if form is None and VARY is not None:
         # ... and through another constructor form
         if k == "Line":
